@@ -52,6 +52,8 @@ type AxiomT struct {
 }
 
 var builtinDecls = map[string]string{
+	"rowview":    "(declare-fun rowview ((Array Int Int) Int) (Array Int Int))",
+	"json.other": "(declare-fun json.other ((Array Int Int) Int) Str)",
 	"idx":  "(declare-fun idx (Int Int) Int)",
 	"slen": "(declare-fun slen (Str) Int)",
 	"sat":  "(declare-fun sat (Str Int) Int)",
@@ -59,6 +61,8 @@ var builtinDecls = map[string]string{
 
 func builtinAxioms(sym string) []string {
 	switch sym {
+	case "rowview":
+		return []string{"(assert (forall ((r (Array Int Int)) (o Int) (k Int)) (! (= (select (rowview r o) k) (select r (+ o k))) :pattern ((select (rowview r o) k)))))"}
 	case "streq":
 		// Go string equality: reflexive, symmetric, and implied by identity of the terms
 		return []string{"(assert (forall ((a Str) (b Str)) (! (=> (= a b) (streq a b)) :pattern ((streq a b)))))",
